@@ -510,7 +510,7 @@ def panic_sites(C, R, F, E, roles, cfg):
                 cat = 'RingBuf contract ("Panics if ..."): push guarded by C09.R1, pop by the emptiness test (below)'
             elif name == 'expect' and fn.get('name') == 'poll' and tr.endswith('::Future'):
                 cat = 'documented: poll after completion (shape checked by C17.R3)'
-            elif 'after completion' in (msg or _expect_msg(fn, b)):
+            elif 'after completion' in (msg or _expect_msg(fn, b, F)):
                 cat = 'documented: use after completion'
             elif name == 'expect' and (fn.get('impl_adt') in roles.futures or
                                        (fn.get('impl_adt') or '').endswith('TimerFuture')) and _on_handle(F, roles, fn, t):
@@ -523,9 +523,9 @@ def panic_sites(C, R, F, E, roles, cfg):
                 cat = 'documented limit of MockClock'
             elif 'not supported for unbuffered' in msg:
                 cat = 'documented: try_send panics on unbuffered channels'
-            elif name == 'expect' and ('contain value' in _expect_msg(fn, b) or 'must be available' in _expect_msg(fn, b)):
+            elif name == 'expect' and ('contain value' in _expect_msg(fn, b, F) or 'must be available' in _expect_msg(fn, b, F)):
                 cat = 'unreachable by the value invariant V (checked below): a live Registered/Unregistered sender holds its value'
-            elif name == 'unreachable_display' and p.startswith('channel::oneshot'):
+            elif name == 'unreachable_display' and 'channel::oneshot' in p:
                 cat = 'unreachable: RecvPollState::Notified is never produced in the oneshot modules (C12.R5)'
             elif 'is_fair' in msg or 'Fair semaphores' in msg:
                 cat = 'unreachable by the fair hand-over invariant (C04.R1+R2 / C07.R1+R4): nobody but the notified head can take the resource'
@@ -659,7 +659,7 @@ def _on_handle(F, roles, fn, t):
     return False
 
 
-def _expect_msg(fn, b):
+def _expect_msg(fn, b, F=None):
     t = b['term']
     for a in t['args']:
         if 'const' in a and isinstance(a['const'], str) and a['const'].startswith('"'):
@@ -669,4 +669,42 @@ def _expect_msg(fn, b):
             r = _const_str_of_local(fn, pl['l'])
             if r:
                 return r
+            # the message is a parameter of a private helper: the messages its callers pass
+            src_l = pl['l']
+            for _hop in range(3):
+                if 1 <= src_l <= fn['arg_count']:
+                    break
+                nxt = None
+                for b3 in fn['blocks']:
+                    for s3 in b3['stmts']:
+                        if s3['k'] == 'assign' and s3['place']['l'] == src_l and not s3['place']['p']:
+                            u3 = (s3['rv'].get('use') or {})
+                            p3 = u3.get('copy') or u3.get('move')
+                            if p3 and not p3['p']:
+                                nxt = p3['l']
+                            r3 = s3['rv'].get('ref')
+                            if isinstance(r3, dict) and r3.get('p') == ['*']:
+                                nxt = r3['l']       # a reborrow `&*param`
+                if nxt is None:
+                    break
+                src_l = nxt
+            pl = {'l': src_l, 'p': []}
+            if F is not None and 1 <= pl['l'] <= fn['arg_count'] and 'str' in (fn['locals'][pl['l']]['ty'].get('str') or ''):
+                msgs = []
+                for g in F.raw['fns']:
+                    for b2 in g['blocks']:
+                        t2 = b2['term']
+                        if t2['k'] == 'call' and 'fn' in t2['func'] and len(t2['args']) >= pl['l']:
+                            ci2 = t2['func']['fn']
+                            rp = (ci2.get('resolved') or {}).get('path') or ci2['path']
+                            if rp == fn['path'] or rp.startswith(fn['path'] + '::<'):
+                                a2 = t2['args'][pl['l'] - 1]
+                                if 'const' in a2 and isinstance(a2['const'], str) and a2['const'].startswith('"'):
+                                    msgs.append(a2['const'])
+                                else:
+                                    p2 = a2.get('move') or a2.get('copy')
+                                    r2 = _const_str_of_local(g, p2['l']) if p2 and not p2['p'] else None
+                                    msgs.append(r2 or '?')
+                if msgs and all(m_ != '?' for m_ in msgs):
+                    return ' | '.join(sorted(set(msgs)))
     return ''
